@@ -48,7 +48,7 @@ def sem_prompt_group(tags=None):
 # ---------------------------------------------------------------- mutex word (rely/guarantee)
 MU_DEF = ["VP_ABSTRACT_QUEUE", "VP_RG_MU"]
 RG = ["rg/vp_rg.c", "rg/vp_stubs.c"]
-GSTEP = ["vp_g.hold", "vp_g.spin", "vp_g.waited", "vp_g.dead", "vp_g.set_desig", "vp_g.longw_set", "vp_g.enq_long", "vp_g.enq_count", "vp_g.last_new"]
+GSTEP = ["vp_g.hold", "vp_g.spin", "vp_g.waited", "vp_g.dead", "vp_g.set_desig", "vp_g.released_with_desig", "vp_g.longw_set", "vp_g.enq_long", "vp_g.enq_count", "vp_g.last_new"]
 GLOCK = GSTEP + ["vp_g.queued", "vp_g.p_calls"]
 GALL = GSTEP + ["vp_g.queued", "vp_g.p_calls", "vp_g.v_calls", "vp_g.cond_evals", "vp_g.last_cond", "vp_g.last_sem_outcome"]
 FWDL = ["vp_fw.nw.waiting", "vp_fw.nw.flags", "vp_fw.remove_count", "vp_fw.cv_mu", "vp_fw.flags", "vp_fw.l_type", "vp_fw.cond.f"]
@@ -120,7 +120,7 @@ def _mu(name, src, fn, entry, replace=(), loops=None, tags=None, **kw):
                  defines=MU_DEF, tags=tags, assumed=MU_ASSUMED, replay="rg", **kw)
 
 
-def mu_groups(tags=None, which=None):
+def mu_groups(tags=None, which=None, tier="quick"):
     M, W = "harness/mu/mu_all.c", "harness/mu/mu_wait_all.c"
     gs = [
         _mu("mu.lock_slow", M, "nsync_mu_lock_slow_", "h_lock_slow", ["nsync_spin_delay_", "mu_release_spinlock"], L_LOCK_SLOW, tags),
